@@ -5,7 +5,7 @@ alphabet to operands chosen from the pool. States are deduplicated by a canonica
 the partition of all cores by shared buffers); values are excluded (see DESIGN.md, C06, for the argument).
 After every transition the invariants are evaluated on every live object against the shadow (pure NumPy snapshots).
 """
-import itertools, collections, time, traceback, sys
+import itertools, collections, time, traceback, sys, hashlib
 import numpy as np
 import multiprocessing as mp
 from vt.core import dense_cores, meta_problem
@@ -243,7 +243,10 @@ def _expand(args):
             dirty = True
             continue
         if not last_level:
-            out['succ'].append((tr, canon(sys_), inplace_used + (1 if op.inplace else 0)))
+            ck = canon(sys_)
+            # only digests travel back to the coordinator (the canonical keys are large nested tuples)
+            out['succ'].append((tr, (hashlib.blake2b(repr(ck).encode(), digest_size=16).digest(),
+                                     hashlib.blake2b(repr(ck[1:]).encode(), digest_size=8).digest()), inplace_used + (1 if op.inplace else 0)))
         if op.inplace:
             dirty = True
         else:
@@ -257,43 +260,51 @@ def _ser(x):
 
 
 def explore(model, tier, seed, jobs, depth, bound_inplace, pools=None, last_inplace_only=False):
+    """level-synchronous BFS; all initial pools advance together so that one worker pool serves the whole level"""
     global _MODEL
     _MODEL = model
     t0 = time.time()
     ctx = mp.get_context('fork')
+    names = list(pools or list(model.pools))
     stats = {'states': 0, 'transitions': 0, 'replays': 0, 'raised': 0, 'per_depth': {}, 'partitions': set(), 'per_pool': {}}
     fails = []
     samples = []
-    for pool in (pools or list(model.pools)):
-        sys0 = model.pools[pool](seed)
-        seen = {canon(sys0)}
-        frontier = [([], 0)]
-        pstat = {'states': 1, 'transitions': 0}
+    seen = {}
+    frontier = []
+    for pool in names:
+        seen[pool] = {(hashlib.blake2b(repr(canon(model.pools[pool](seed))).encode(), digest_size=16).digest(), None)[0]}
+        frontier.append((pool, [], 0))
+        stats['per_pool'][pool] = {'states': 1, 'transitions': 0}
+    with ctx.Pool(jobs) as p:
         for lvl in range(1, depth + 1):
             last = lvl == depth
-            args = [(pool, seed, h, iu, bound_inplace, last, last and last_inplace_only) for h, iu in frontier]
+            args = [(pool, seed, h, iu, bound_inplace, last, last and last_inplace_only) for pool, h, iu in frontier]
             nxt = []
-            with ctx.Pool(jobs) as p:
-                for (a, out) in zip(args, p.imap(_expand, args, chunksize=max(1, len(args) // (jobs * 8)))):
-                    stats['transitions'] += out['transitions']; stats['replays'] += out['replays']; stats['raised'] += out['raised']
-                    pstat['transitions'] += out['transitions']
-                    fails.extend(out['fails'])
-                    for tr, key, iu in out['succ']:
-                        stats['partitions'].add(key[1])
-                        if key not in seen:
-                            seen.add(key)
-                            nxt.append((a[2] + [tr], iu))
-            stats['per_depth']['%s:%d' % (pool, lvl)] = {'frontier_in': len(frontier), 'new_states': len(nxt)}
-            if nxt and len(samples) < 12:
-                h = nxt[len(nxt) // 2][0]
-                samples.append({'pool': pool, 'history': [model.ops[t[0]].name + str(list(t[1])) for t in h]})
+            new_per_pool = collections.Counter()
+            for (a, out) in zip(args, p.imap(_expand, args, chunksize=max(1, min(64, len(args) // (jobs * 8) or 1)))):
+                pool = a[0]
+                stats['transitions'] += out['transitions']; stats['replays'] += out['replays']; stats['raised'] += out['raised']
+                stats['per_pool'][pool]['transitions'] += out['transitions']
+                fails.extend(out['fails'])
+                for tr, key, iu in out['succ']:
+                    stats['partitions'].add(key[1])
+                    if key[0] not in seen[pool]:
+                        seen[pool].add(key[0])
+                        nxt.append((pool, a[2] + [tr], iu))
+                        new_per_pool[pool] += 1
+            stats['per_depth'][str(lvl)] = {'frontier_in': len(frontier), 'new_states': len(nxt), 'new_states_per_pool': dict(new_per_pool)}
+            for pool in names:
+                cand = [x for x in nxt if x[0] == pool]
+                if cand and len(samples) < 3 * len(names):
+                    h = cand[len(cand) // 2][1]
+                    samples.append({'pool': pool, 'history': [model.ops[t[0]].name + str(list(t[1])) for t in h]})
             frontier = nxt
             if not frontier:
                 break
-        pstat['states'] = len(seen)
-        stats['states'] += len(seen)
-        stats['per_pool'][pool] = pstat
+    for pool in names:
+        stats['per_pool'][pool]['states'] = len(seen[pool])
+        stats['states'] += len(seen[pool])
     stats['wall'] = time.time() - t0
-    stats['samples'] = samples
+    stats['samples'] = samples[:16]
     stats['distinct_sharing_partitions'] = len(stats.pop('partitions'))
     return stats, fails
